@@ -169,6 +169,11 @@ func InModule(fn *ssa.Function) bool {
 	return fn != nil && fn.Pkg != nil && (fn.Pkg.Pkg.Path() == Module || strings.HasPrefix(fn.Pkg.Pkg.Path(), Module+"/"))
 }
 
+// InModuleOrExample: fn belongs to the module or to a rule's built-in example package.
+func InModuleOrExample(fn *ssa.Function) bool {
+	return InModule(fn) || (fn != nil && fn.Pkg != nil && fn.Pkg.Pkg.Path() == "example")
+}
+
 // CallGraph returns the CHA call graph: the one every verdict is decided on
 // (an over-approximation of the calls; the rule instance counts and their
 // floors are measured on it).
